@@ -30,6 +30,7 @@ from pathlib import Path
 
 from . import common
 from . import c07_gen as G
+from . import c07_access as A
 from .common import Driver, Report, lean_prove
 
 PROP = "C07"
@@ -410,11 +411,15 @@ def run(tier: str, seed: int, replay: str | None = None) -> int:
     n_dum = 300 if tier == "quick" else 3000
     n_sub = 300 if tier == "quick" else 3000
     cases = []
+    access_replay = []
     if replay:
         data = json.loads(Path(replay).read_text())
         for c in data.get("cases", []) + data.get("first_disagreements", []):
             if "project" in c and "files" in c:
-                cases.append((c["project"], c["files"]))
+                if c.get("stream") == "access":
+                    access_replay.append(c)
+                else:
+                    cases.append((c["project"], c["files"]))
     # the witnesses of the known findings are always replayed first
     kf = json.loads((common.VERIF / "known_findings" / f"{PROP}.json").read_text()).get("findings", [])
     for f in kf:  # open and fixed ones alike (a fixed witness is a regression case)
@@ -635,6 +640,9 @@ def run(tier: str, seed: int, replay: str | None = None) -> int:
                     {"owner": "/".join(n for _, n in F.scopes[sl["scope"]]["path"]), "what": sl["what"], "name": sl["name"],
                      "ford": describe(F, obs.get(i)), "expected": "not Fortran" if exp[i] == G.SKIP else describe(F, exp[i])}
                     for i, sl in enumerate(F.slots) if obs.get(i, UNOBS) != UNOBS][:12]})
+    # stream `access`: use association sees exactly the PUBLIC identifiers of a module (c07_access.py)
+    import sys
+    acc_cov = A.run_stream(rep, ford, drv, sys.modules[__name__], random.Random(seed * 7919 + 13), tier, access_replay)
     drv.close()
     agreeing = [v for v in VARIANTS if mism[v] == 0]
     variant = agreeing[0] if agreeing else None
@@ -692,8 +700,8 @@ def run(tier: str, seed: int, replay: str | None = None) -> int:
     for _, _, cls in fails:
         by_cls[str(cls)] = by_cls.get(str(cls), 0) + 1
     rep.coverage.update(
-        evaluations=hist["slots"] + hist["raise"],
-        distinct_nontrivial=len(distinct),
+        evaluations=hist["slots"] + hist["raise"] + acc_cov["histogram"]["slots"],
+        distinct_nontrivial=len(distinct) + acc_cov["distinct_nontrivial"],
         rule="one evaluation = one reference slot of one generated project compared (model vs FORD object, and oracle vs FORD object); "
              "non-trivial project = at least 3 reference slots, distinct by digest of the abstract encoding",
         samples=samples,
@@ -713,13 +721,17 @@ def run(tier: str, seed: int, replay: str | None = None) -> int:
         bound_procedure_cases=n_bnd,
         dummy_procedure_cases=n_dum,
         submodule_cases=n_sub,
+        access_stream=acc_cov,
     )
     rep.assumptions += [
         "implicit typing, IMPORT statements, common blocks and namelists are outside the abstract projects; submodules: depth <= 2, a module does not implement its own module procedure interfaces, every implementation is a subroutine",
         "BLOCK constructs: derived types without CONTAINS part, abstract interfaces, interface blocks, variables, USE statements "
         "and nested BLOCKs; FORD has no object for a BLOCK and records no reference inside it - such references are evaluated "
         "(oracle: the BLOCK's own frame first) only when the implementation under test does record them",
-        "all abstract modules have default accessibility PUBLIC (accessibility is C04/C06)",
+        "the abstract modules of the older streams have default accessibility PUBLIC; stream `access`: three or four modules "
+        "with either default, a bare PRIVATE stands in front of the declarations (a late one is C04-late-bare-private), a "
+        "PRIVATE statement names declared identifiers only (hiding a use-associated identifier is C06-private-imported-reexported), "
+        "every identifier is named by at most one access statement, PROTECTED and module variables as imported entities are outside",
         "interface bodies are not scopes of the abstract project (they have no declarations of their own); an interface body "
         "inside a generic interface and one that declares a dummy procedure are local procedure-like entities of the scope",
         "type-bound procedures: all bindings are public and NOPASS; generic bindings have names that no other binding has "
